@@ -125,7 +125,12 @@ impl Transformer {
                     };
                 }
             }
-            Expression::FunctionCall { args, .. } => {
+            Expression::FunctionCall { callable, args, .. } => {
+                // A plain identifier in callee position is a function name and stays as it is;
+                // any other callee expression contains ordinary sub-expressions.
+                if !callable.is_identifier() {
+                    self.transform_expression(callable);
+                }
                 for arg in args {
                     self.transform_expression(arg);
                 }
